@@ -43,6 +43,7 @@ TRUSTED_BASE = [
     "translator target harness/cmd/gen/target_x509.go (go/parser): tables, OID literals, the checkSignature / isRSAPSS / curve / key-type switches of x509/x509.go -> coq/Gen/X509Tables.v",
     "model coq/X509/CreateModel.v written by hand from utils.go:CreateCertificate, x509.go:CreateCertificateRequest/CreateCRL/CreateRevocationList/signingParamsForPublicKey/signingInput/getSignatureAlgorithmFromAI/checkSignature/buildExtensions; tied by the correspondence run",
     "coq/X509/CreateRun.v: the runner evaluates a table computed by Coq from the model (theorem runner_table_is_the_model)",
+    "object-level models coq/X509/CertModel.v (TBSCertificate frame, SM2 SubjectPublicKeyInfo, buildExtensions order / criticality / conditions, extension loop of parseCertificate, CertificationRequestInfo frame) and coq/X509/CrlModel.v; tied by the tbsc / tbs E cases (real RawTBSCertificate / TBSCertList bytes = model)",
     "byte-level extension models coq/X509/ExtModel.v over coq/X509/DerLayer.v (encoding/asn1 by contract: how typed values are filled); tied by the E cases (real extension value bytes and parsed fields = model)",
     "C01 (Props/C01.v) for the SM2 statements: premises SM2Facts (p, n prime, group law, order of G)",
     "extraction: ExtrOcamlBasic only; runner ocaml/x509/main.ml and ocaml/conv.ml.tmpl",
@@ -67,7 +68,9 @@ RULE = ("seeded generator (VERIF_SEED): every (kind, signer, algorithm) combinat
         "and bad length, OIDs with boundary arcs and invalid shapes, unknown EKU constants: the extension VALUE bytes and the fields parsed back "
         "are compared with the byte-level Coq model; every fifth E case is a TBSCertList (CreateRevocationList / CreateCRL with random "
         "times around the UTCTime/GeneralizedTime switch, serials, entry extensions, key id, CRL number, extra extensions): the real "
-        "TBSCertList bytes must equal the model's. Every case is non-trivial; distinct = distinct case text")
+        "TBSCertList bytes must equal the model's; another fifth is a TBSCertificate (CreateCertificate with an SM2 subject key given by its "
+        "coordinates, serial, names, validity, key usage, EKUs, basic constraints, key ids, SANs, policies, name constraints): the real "
+        "RawTBSCertificate bytes must equal the model's. Every case is non-trivial; distinct = distinct case text")
 
 
 ALGO_ERRORS = ("x509:_requested_SignatureAlgorithm_does_not_match_private_key_type", "x509:_unknown_SignatureAlgorithm",
@@ -145,8 +148,8 @@ def _predicate_E(f, io):
             return True, ""          # ExtKeyUsage value that is no constant of the package: buildExtensions panics by design
         return False, "implementation " + (io[0] if io else "gave no result")
     kind = f[2]
-    if kind in ("ncx", "tbs"):
-        return True, ""              # arbitrary NameConstraints value / TBSCertList bytes: decided by comparison with the model
+    if kind in ("ncx", "tbs", "tbsc"):
+        return True, ""              # arbitrary NameConstraints value / TBSCertList / TBSCertificate bytes: decided by comparison with the model
     if io[:2] == ["err", "create"]:
         return True, ""              # template refused: the property speaks about accepted templates
     if io[:2] == ["err", "parse"]:
